@@ -23,6 +23,23 @@ EXPLANATION = (
     "conversions lie between the request and the parser: no trimming / case folding / replacing).")
 
 
+def same_parser(c, a, b):
+    """two text entry points (from_plain / from_str) are the same function of their input: with their private helpers spliced in
+    they make the same external calls (same callees, same type arguments) on the unmodified input — e.g. both delegate to
+    one private `parse_checked`"""
+    from .. import inline as _inl
+    VIEW = ("core::ops::deref::Deref::deref", "core::convert::AsRef::as_ref", "core::borrow::Borrow::borrow")
+
+    def sig(x):
+        ex = _inl.expand(c, x, depth=3, pred=lambda cb: cb.d.get("vis") != "pub" or cb.name == "new", lower=True)
+        ext = sorted((t["call"]["def"], tuple(tystr(s_) for s_ in t["call"].get("substs") or [])) for _, t in ex.calls() if not t["call"].get("local") and t["call"]["def"] not in VIEW)
+        firsts = [t for _, t in ex.calls() if t["call"]["name"] in ("parse", "from_str", "decode", "captures", "is_match") and t["args"]]
+        rooted = all(Tracer(ex).root_locals(t["args"][-1] if t["call"]["name"] in ("captures", "is_match") else t["args"][0]) <= {1} for t in firsts[:1])
+        return ext, rooted
+    sa, sb = sig(a), sig(b)
+    return bool(sa[0]) and sa[0] == sb[0] and sa[1] and sb[1]
+
+
 def f64_tables(ctx, c, wb, rb):
     """R12.2 as two decision tables (constant propagation through local helpers, newtype wrappers, combinators): the writer
     evaluated for +inf, -inf, NaN (either sign) and finite values, the reader for the two spellings and for other texts.
@@ -290,6 +307,10 @@ def run(ctx):
                 inner = [t for _, t in nb_.calls() if t["call"]["name"] in ("parse", "from_str")] if nb_ is not None else []
                 ok = len(inner) == 1 and tystr(inner[0]["call"]["substs"][-1 if inner[0]["call"]["name"] == "parse" else 0]) == ty and Tracer(nb_).root_locals(inner[0]["args"][0]) == {1} \
                     and Tracer(b).root_locals(news[0]["args"][0]) == {1}
+        if not ok:
+            # or: FromPlain and FromStr share one private parsing function
+            fsb = [x for x in c.bodies if x.trait == "core::str::traits::FromStr" and x.name == "from_str" and tystr(x.self_ty or {}) == ty]
+            ok = len(fsb) == 1 and same_parser(c, b, fsb[0])
         ctx.check(ok, "R12.4", b.loc(), f"fromplain|{ty}", f"FromPlain for {ty} must resolve to str::parse::<{ty}>; found {[(t['call']['name'], [tystr(x) for x in t['call']['substs']]) for t in calls]}", instance=f"{ty}: FromPlain -> FromStr of Self")
     ctx.floor("R12.4", "delegating PLAIN impls", n, 8)
     # ---------------- R12.5 generated aliases
